@@ -144,6 +144,9 @@ func (n *Node) Encode() []byte {
 	return n.appendTo(nil)
 }
 
+// Body returns the content octets as they will be encoded.
+func (n *Node) Body() []byte { return n.body() }
+
 func (n *Node) body() []byte {
 	if n.Children != nil && (n.Constructed || n.Wrapped) {
 		var body []byte
